@@ -1,6 +1,6 @@
 CONSTANTS
   MaxN = 4
-  Pool = 28
+  Pool = 29
   Full3 = FALSE
 SPECIFICATION Spec
 INVARIANTS Export
